@@ -61,6 +61,9 @@ def make_data(rng, kind, shape):
         a = np.array([rng.uniform(-5.0, 5.0) for _ in range(n)], dtype=np.float64)
     elif kind == "float32":
         a = np.array([rng.uniform(-5.0, 5.0) for _ in range(n)], dtype=np.float32)
+    elif kind == "float64_offset":
+        # a field whose magnitude is large compared with its variation across an element (pressure in Pa, seconds since an epoch)
+        a = np.array([1.0e6 + rng.uniform(-1.0, 1.0) for _ in range(n)], dtype=np.float64)
     elif kind == "float64_nan":
         a = np.array([rng.uniform(-5.0, 5.0) for _ in range(n)], dtype=np.float64)
         for _ in range(max(1, n // 9)):
@@ -87,7 +90,7 @@ def _equal(got, exp, kind):
     if kind == "int64_big":
         # exact integer comparison (python ints); a float result is compared by exact value
         return all(int(g) == int(e) for g, e in zip(got.ravel().tolist(), exp.ravel().tolist()))
-    tol = 1e-5 if kind == "float32" else 1e-9
+    tol = 1e-5 if kind == "float32" else (1e-6 if kind == "float64_offset" else 1e-9)
     return bool(np.allclose(got.astype(np.float64), exp.astype(np.float64), rtol=tol, atol=tol, equal_nan=True))
 
 
@@ -126,6 +129,8 @@ def check_mesh(rec, rng, mesh, kinds, ranks, reds, counts):
                    "data_kind": kind, "dims": dims, "data": data.tolist() if data.size <= 40 else "seeded"}
             for red in reds:
                 if kind == "int64_big" and red not in ("min", "max"):
+                    continue
+                if kind == "float64_offset" and red in ("prod", "all", "any"):
                     continue
                 fn = REDUCTIONS[red]
                 for dest in ("face", "edge"):
@@ -246,14 +251,14 @@ def aggregations(tier, seed):
     counts = set()
     cat = mg.catalogue(tier, seed)
     reds = list(REDUCTIONS)
-    kinds_all = ["float64", "int64", "bool", "float32", "int32", "float64_nan", "int64_big"]
+    kinds_all = ["float64", "int64", "bool", "float32", "int32", "float64_nan", "int64_big", "float64_offset"]
     for i, m in enumerate(cat):
         if tier == "thorough":
             ranks = [1, 2, 3]
             kinds = kinds_all
         else:
             ranks = [1 + (i % 3)]
-            kinds = ["float64", "int64", "bool"] + [kinds_all[3 + (i % 4)]]
+            kinds = ["float64", "int64", "bool"] + [kinds_all[3 + (i % 5)]]
         check_mesh(rec, rng, m, kinds, ranks, reds, counts)
     # every rank / kind at least once in quick on the mixed hand-made meshes
     if tier != "thorough":
